@@ -273,15 +273,17 @@ OrderInsensitive(dst, src) ==
     \/ \A j, k \in 1..Len(dst.offs) : (dst.offs[j] = src.offs[k]) => (j = k)
 
 WCopyFrom ==
-    /\ "copyfrom" \in WriteOps
+    /\ ("copyfrom" \in WriteOps \/ "copyview" \in WriteOps)     \* "copyview": only the live-view sources
     /\ \E vi \in WriteChoice :
        LET v == views[vi] IN
        \/ \E kind \in SrcKinds :
-            LET vals == SrcVals(Len(v.offs))
-                ws == [j \in 1..Len(v.offs) |-> <<v.offs[j], vals[j]>>]
-            IN DoWrite(vi, ws, [op |-> "copyfrom", src |-> kind, vals |-> vals])
+            /\ "copyfrom" \in WriteOps
+            /\ LET vals == SrcVals(Len(v.offs))
+                   ws == [j \in 1..Len(v.offs) |-> <<v.offs[j], vals[j]>>]
+               IN DoWrite(vi, ws, [op |-> "copyfrom", src |-> kind, vals |-> vals])
        \* a source SMALLER than the view (same rank) fills the leading corner: CopyFrom is ApplySlice at the origin
        \/ \E kind \in SrcKinds : \E ss \in SeqProd([d \in 1..Len(v.shape) |-> 1..v.shape[d]]) :
+            /\ "copyfrom" \in WriteOps
             /\ ss # v.shape
             /\ LET offs == SliceOffs(v, [d \in 1..Len(ss) |-> <<0, ss[d], 1>>])
                    vals == SrcVals(Len(offs))
@@ -295,16 +297,21 @@ WCopyFrom ==
 
 \* whole-array helpers ScaleXArray / AddToXArray / ApplyFunc1X (dest, source):
 \*   scale:  dest[i] = source[i] * 2 ; addto: dest[i] = dest[i] + source[i] ; func: dest[i] = source[i] + 1
-TwoArrayFn(f, dv, sv) == CASE f = "scale" -> sv * 2 [] f = "addto" -> dv + sv [] f = "func" -> sv + 1
+\*   scale1 / scale0: the factors 1 (dest becomes a copy of source) and 0 (dest becomes zero) -- factors at which an
+\*   implementation may be tempted to skip the pass
+TwoArrayFn(f, dv, sv) == CASE f = "scale" -> sv * 2 [] f = "scale1" -> sv [] f = "scale0" -> 0
+                           [] f = "addto" -> dv + sv [] f = "func" -> sv + 1
+TwoArrayFns == {"scale", "scale1", "scale0", "addto", "func"}
 WTwoArray ==
-    /\ "twoarray" \in WriteOps
-    /\ \E vi \in WriteChoice : \E f \in {"scale", "addto", "func"} :
+    /\ ("twoarray" \in WriteOps \/ "twoview" \in WriteOps)     \* "twoview": only the live-view sources
+    /\ \E vi \in WriteChoice : \E f \in TwoArrayFns :
        LET v == views[vi] IN
        \/ \E kind \in SrcKinds :
-            LET sv == SrcVals(Len(v.offs))
-                ws == [j \in 1..Len(v.offs) |->
-                         <<v.offs[j], TwoArrayFn(f, stores[v.sid][v.offs[j] + 1], sv[j])>>]
-            IN DoWrite(vi, ws, [op |-> "twoarray", fn |-> f, src |-> kind, vals |-> sv])
+            /\ "twoarray" \in WriteOps
+            /\ LET sv == SrcVals(Len(v.offs))
+                   ws == [j \in 1..Len(v.offs) |->
+                            <<v.offs[j], TwoArrayFn(f, stores[v.sid][v.offs[j] + 1], sv[j])>>]
+               IN DoWrite(vi, ws, [op |-> "twoarray", fn |-> f, src |-> kind, vals |-> sv])
        \/ \E ui \in DOMAIN views :
             LET u == views[ui] IN
             /\ u.shape = v.shape /\ OrderInsensitive(v, u)
